@@ -330,6 +330,8 @@ class Interp:
             return Fn("lib", name="builtins." + last)
         if fq in ("operator.or_",):
             return Fn("lib", name="operator.or_")
+        if fq in ("itertools.groupby", "operator.itemgetter"):
+            return Fn("lib", name=fq)
         if fq in ("copy.deepcopy", "copy.copy"):
             return Fn("lib", name="identity")
         if fq.startswith("numpy.") or fq.startswith("math.") or fq.startswith("datetime.") or fq.startswith("dateutil.") or fq.startswith("posixpath."):
